@@ -5,6 +5,7 @@ use crate::compression::flags;
 use crate::security::*;
 use crate::tables::{BlockEntry, HashEntry, HashTable};
 use crate::*;
+use crate::crypto::{hash_string, hash_type};
 use byteorder::{LittleEndian, ReadBytesExt};
 use std::io::Cursor;
 
@@ -356,4 +357,38 @@ fn u08_3_chain_parallel_sort_stable() {
         }
         i += 1;
     }
+}
+
+// ------------------------------------------------------------------------------------ U02.3 table keys and file keys (E11 blocks)
+// @harness unit=U02.3 props=C02,C01 kind=complete timeout=300 target="builder.rs write_hash_table/write_block_table, tables/hash.rs + tables/block.rs read: key statements (E11 blocks) equal the published table keys"
+#[kani::proof]
+#[kani::unwind(16)]
+#[kani::stub(alloc::fmt::format, stub_format)]
+fn u02_3_table_keys_are_the_published_ones() {
+    assert!(blk_key_builder_hash() == 0xC3AF_3770, "builder encrypts the hash table with hash(\"(hash table)\", FILE_KEY) = 0xC3AF3770");
+    assert!(blk_key_builder_block() == 0xEC83_B3A3, "builder encrypts the block table with hash(\"(block table)\", FILE_KEY) = 0xEC83B3A3");
+    assert!(blk_key_reader_hash() == 0xC3AF_3770, "reader decrypts the hash table with the published key");
+    assert!(blk_key_reader_block() == 0xEC83_B3A3, "reader decrypts the block table with the published key");
+}
+
+// @harness unit=U02.3 props=C02,C01 kind=complete timeout=600 target="archive.rs: read_file key computation (E11 block): published formula, all positions/sizes/flags (name fixed: its hash is U04)"
+#[kani::proof]
+#[kani::unwind(8)]
+#[kani::stub(alloc::fmt::format, stub_format)]
+fn u02_3_reader_file_key_formula() {
+    let name = "a\\b.c";
+    let base = hash_string(name, hash_type::FILE_KEY);
+    let flags: u32 = kani::any();
+    let archive_offset: u64 = kani::any();
+    let rel: u64 = kani::any();
+    kani::assume(archive_offset <= (1u64 << 40) && rel <= (1u64 << 40));
+    let size: u32 = kani::any();
+    let fi = crate::archive::FileInfo { filename: String::new(), hash_index: 0, block_index: 0, file_pos: archive_offset + rel,
+                                        compressed_size: 0, file_size: 0, flags, locale: 0 };
+    let key = blk_reader_file_key(&fi, archive_offset, name, size);
+    let want = if flags & BlockEntry::FLAG_ENCRYPTED == 0 { 0 }
+               else if flags & BlockEntry::FLAG_FIX_KEY != 0 { base.wrapping_add(rel as u32) ^ size }
+               else { base };
+    assert!(key == want, "file key = hash(name, FILE_KEY), adjusted as (key + file position) ^ file size under FIX_KEY");
+    core::mem::forget(fi);
 }
